@@ -38,7 +38,7 @@ func (e *Enc) marr(st *State, name, ksort, vsort string) string {
 	if s, ok := st.m[name]; ok {
 		return s
 	}
-	return e.declare(fmt.Sprintf("%s@E%d", name, st.epoch), full)
+	return e.epochArr(st, name, full)
 }
 
 func (e *Enc) setMarr(st *State, name, ksort, vsort, term string) {
@@ -150,7 +150,7 @@ func (e *Enc) visited(st *State, ri *rangeInfo) string {
 	if s, ok := st.m[ri.visName]; ok {
 		return s
 	}
-	return e.declare(fmt.Sprintf("%s@E%d", ri.visName, st.epoch), e.visSort(ri))
+	return e.epochArr(st, ri.visName, e.visSort(ri))
 }
 
 func (e *Enc) rangeMap(in *ssa.Range, st *State) bool {
